@@ -30,7 +30,9 @@ def gen_case(seed, i, engine, n_ops):
 
 
 def bounds_case(seed, i, engine):
-    """Range bounds of the form key+\x00 (/repo 146f0bb) and writes without a value (/repo f2a549c), deterministically:
+    """Range bounds of the form key+\x00 (/repo 146f0bb), bounds with ANY byte at or below '$' (/repo 23c8b93: key+\x01,
+    key+'#', key+'$', key+\x00\x00, key+\x00+'b', bounds starting with a low byte) and writes without a value (/repo f2a549c),
+    deterministically:
     paging with every page size through prefix-related keys (a key, its extension, its sibling), at the current and at an
     old revision; the single-key range [k, k\x00) of live, deleted and missing keys; counts over such bounds; empty-value
     creates / updates, which must be refused alike and change nothing."""
@@ -55,6 +57,34 @@ def bounds_case(seed, i, engine):
     for k in keys:
         lines += ["count %s %s" % (hx(hist.succ(k)), hx(hi)), "count %s %s" % (hx(lo), hx(hist.succ(k))),
                   "count %s %s" % (hx(k), hx(hist.succ(k)))]
+    # bounds with other low bytes (/repo 23c8b93): [k, k+low) is exactly k, [k+low, hi) everything after k and not k,
+    # [lo, k+low) up to and including k, [k+low1, k+low2) nothing (the two are encoded alike), [k\x00, k+low) nothing;
+    # bounds that START with a low byte lie below every key
+    for rev in (0, old):
+        for k in r.sample(keys, 3) + [b"/r/zz"]:
+            lows = hist.low_bounds(k, r, 4)
+            for L in lows:
+                lines.append("list %s %s %d 0" % (hx(k), hx(L), rev))
+                lines.append("list %s %s %d %d" % (hx(L), hx(hi), rev, r.choice([0, 1])))
+                lines.append("list %s %s %d %d" % (hx(lo), hx(L), rev, r.choice([0, 2])))
+            a, b = sorted(r.sample(lows, 2))
+            lines += ["list %s %s %d 0" % (hx(a), hx(b), rev), "list %s %s %d 0" % (hx(hist.succ(k)), hx(max(lows)), rev)]
+            k2 = r.choice(keys)
+            a, b = sorted([r.choice(lows), r.choice(hist.low_bounds(k2))])
+            lines.append("list %s %s %d 0" % (hx(a), hx(b), rev))
+        for H in hist.LOW_HEADS:
+            lines.append("list %s %s %d %d" % (hx(H), hx(hi), rev, r.choice([0, 0, 2])))
+            lines.append("list %s %s %d 0" % (hx(H), hx(r.choice(keys) + r.choice(hist.LOW_TAILS)), rev))
+        a, b = sorted(r.sample(hist.LOW_HEADS, 2))
+        lines.append("list %s %s %d 0" % (hx(a), hx(b), rev))
+    for k in r.sample(keys, 3):
+        L = r.choice(hist.low_bounds(k))
+        lines += ["count %s %s" % (hx(L), hx(hi)), "count %s %s" % (hx(lo), hx(L)), "count %s %s" % (hx(k), hx(L)),
+                  "count %s %s" % (hx(r.choice(hist.LOW_HEADS)), hx(L))]
+    # the encoded bounds themselves (GetPartitions of a one-partition engine answers [encodeRangeBound(a), encodeRangeBound(b)])
+    for k in r.sample(keys, 2):
+        L = r.choice(hist.low_bounds(k))
+        lines += ["parts %s %s" % (hx(k), hx(L)), "parts %s %s" % (hx(L), hx(hi))]
     # writes without a value: refused before a revision is dealt, nothing changes (all engines alike)
     live = [k for k in keys if sh.keys.get(k, (0, False))[1]]
     dead = [k for k in keys if k not in live] + [b"/r/zz"]
@@ -130,8 +160,9 @@ def check(rep, tier, seed):
     if core.judge(rep, "C03", cases, hist.check_reads, shrink_fn=lambda x: hist.check_reads(x) is not None):
         return
     rep.assumptions += ["reads at revisions the node has reported readable (<= committed) and >= compaction floor",
-                        "range bounds: keys over the alphabet and their successors key+\\x00 (continue key of a paginated list, end of a "
-                        "single-key range), judged on raw keys by the MVCC replay",
+                        "range bounds: ANY byte strings — keys over the alphabet, their successors key+\\x00 (continue key of a paginated "
+                        "list, end of a single-key range), and bounds with any other byte at or below '$' behind a key or at their start "
+                        "(/repo 23c8b93) — judged on raw keys by the MVCC replay",
                         "non-empty values (a write without a value must be refused on every engine alike, consuming no revision); "
                         "count with EnableEtcdCompatibility=true",
                         "engines: memkv, badger, tikv mock cluster, metrics wrapper over badger"]
